@@ -20,6 +20,7 @@ FUNCTIONS = [
     "asimap.client.PreAuthenticated.do_login",
     "asimap.client.BaseClientHandler.command (dispatch on PreAuthenticated)",
     "asimap.auth.authenticate",
+    "asimap.auth.read_users_from_file (reload of a changed password file)",
     "asimap.hashers.verify_password (unusable-hash gate only)",
     "asimap.server.IMAPSubprocessInterface.message/unauthenticated",
     "asimap.pop3_server.POP3SubprocessInterface.message/handle_authorization/_do_pass",
@@ -551,6 +552,99 @@ def dispatch_table(params):
     return {"verdict": "held", "direct_queries": len(exposed), "direct_nontrivial": len(exposed), "witness_sample": sorted(exposed) + mailbox_cmds}
 
 
+# ---------------------------------------------------------------------------
+# the password file is re-read when it changed: a login is decided by the file as it is NOW
+def pwfile_reload_step(kind: int, newer: bool, pw: int, other: bool, again: bool) -> bool:
+    """
+    pre: 0 <= kind <= 4 and 0 <= pw <= 1
+    post: _
+    """
+    return held(_pwfile_reload_step, core.concrete(locals()))
+
+
+def _pwfile_reload_step(kind, newer, pw, other, again):
+    """
+    The real auth.authenticate + auth.read_users_from_file over a fake aiofiles.  Version 1 of the file is loaded by a
+    first (successful) login; the file is then rewritten (kind: 0 unchanged, 1 new hash, 2 account removed, 3 other
+    maildir, 4 disabled = unusable hash) with a newer mtime or not; the next login must be decided by the version the
+    documented reload rule selects (newer mtime -> the current file).
+    """
+    import asimap.auth as A
+
+    ver = {"v": 1}
+    mt = {"t": 10}
+    HASH = {"p1": "h1", "p2": "h2"}
+
+    def content():
+        h, md = "h1", "md1"
+        lines = ["# accounts\n", "\n"]
+        if ver["v"] == 2:
+            h = {1: "h2", 4: "!unusable"}.get(kind, "h1")
+            md = "md2" if kind == 3 else "md1"
+        if other:
+            lines.append("w:hw:mdw\n")
+        if not (ver["v"] == 2 and kind == 2):
+            lines.append(f"u:{h}:{md}\n")
+        return lines
+
+    class _F:
+        def __init__(self):
+            self.lines = content()
+
+        async def __aenter__(self):
+            return self
+
+        async def __aexit__(self, *a):
+            return False
+
+        def __aiter__(self):
+            self.i = iter(self.lines)
+            return self
+
+        async def __anext__(self):
+            try:
+                return next(self.i)
+            except StopIteration:
+                raise StopAsyncIteration
+
+    async def getmtime(p):
+        return mt["t"]
+
+    async def acheck_password(password, encoded, setter=None, preferred="default"):
+        return HASH.get(password) == encoded
+
+    A.aiofiles = types.SimpleNamespace(open=lambda *a, **k: _F(), os=types.SimpleNamespace(path=types.SimpleNamespace(getmtime=getmtime)))
+    A.acheck_password = acheck_password
+    A.PW_FILE_LOCATION = "/fake/pw"
+    A.PW_FILE_LAST_TIMESTAMP = 0
+    A.USERS.clear()
+
+    def attempt(user, password):
+        try:
+            return run(A.authenticate(user, password))
+        except (A.NoSuchUser, A.BadAuthentication):
+            return None
+
+    first = attempt("u", "p1")
+    reached()
+    check(first is not None and first.username == "u", "C18/pwfile_reload_step/first_login_with_the_right_password_refused")
+    check(attempt("u", "p2") is None, "C18/pwfile_reload_step/wrong_password_accepted")
+    ver["v"] = 2
+    if newer:
+        mt["t"] = 20
+    password = ["p1", "p2"][pw]
+    if again:  # someone else logs in first (the reload happens on their attempt)
+        attempt("w", "nope")
+    got = attempt("u", password)
+    eff = "h1" if not newer else {1: "h2", 2: None, 4: "!unusable"}.get(kind, "h1")
+    want = eff is not None and HASH[password] == eff
+    check((got is not None) == want, "C18/pwfile_reload_step/login_not_decided_by_the_current_password_file", kind=kind, newer=newer, password=password, authenticated=got is not None, expected=want)
+    if got is not None:
+        check(str(got.maildir).endswith("md2" if (newer and kind == 3) else "md1"), "C18/pwfile_reload_step/maildir_not_from_the_current_password_file", maildir=str(got.maildir))
+    check(("w" in A.USERS) == other, "C18/pwfile_reload_step/other_account_wrong")
+
+
+
 def jobs(tier):
     T = 120 if tier == "quick" else 600
     js = []
@@ -565,6 +659,7 @@ def jobs(tier):
         js.append({"name": f"imap_gate_step[{lo}]", "fn": "imap_gate_step", "params": {"lo": lo, "hi": min(31, lo + 4)}, "timeout": T})
     js.append({"name": "pop3_gate_step", "fn": "pop3_gate_step", "params": {}, "timeout": T})
     js.append({"name": "unusable_hash", "fn": "unusable_hash", "params": {}, "timeout": T})
+    js.append({"name": "pwfile_reload_step", "fn": "pwfile_reload_step", "params": {}, "timeout": T})
     js.append({"name": "dispatch_table", "fn": "dispatch_table", "kind": "py", "params": {}, "timeout": 60})
     return js
 
